@@ -836,6 +836,46 @@ fn kf_c06_sheets_worksheet_range_ref_is_total() {
 
 // mutation recipes recorded by the triage harness (fixture, part, operation) ----------------------
 
+// ==========================================================================================
+// feature "picture": OfficeArt records of the MsoDrawingGroup record (run with `--features picture`)
+#[cfg(feature = "picture")]
+fn art(ver_ins: u16, typ: u16, data: &[u8]) -> Vec<u8> {
+    let mut v = Vec::new();
+    v.extend_from_slice(&ver_ins.to_le_bytes());
+    v.extend_from_slice(&typ.to_le_bytes());
+    v.extend_from_slice(&(data.len() as u32).to_le_bytes());
+    v.extend_from_slice(data);
+    v
+}
+#[cfg(feature = "picture")]
+#[test]
+fn kf_c06_xls_art_records_hostile() {
+    let open = |group: Vec<u8>| {
+        let bytes = xls_file(&[(0x00EB, group)], &[]);
+        if let Ok(wb) = Xls::new(Cursor::new(bytes)) {
+            let _ = wb.pictures();
+        }
+    };
+    // OfficeArtFBSE shorter than its fixed part, and with a name length pointing beyond it
+    for len in [0usize, 10, 33, 34, 36, 40] {
+        let mut d = vec![0u8; len];
+        if len > 33 {
+            d[33] = 200;
+        }
+        let g = art(0x0002, 0xF007, &d);
+        no_panic(&format!("OfficeArtFBSE of {len} bytes"), || open(g));
+    }
+    // blip records with an instance the reader does not list, and shorter than their header
+    for typ in [0xF01Au16, 0xF01B, 0xF01C, 0xF01D, 0xF01E, 0xF01F, 0xF029, 0xF02A] {
+        let g = art(0x0000, typ, &[0u8; 80]);
+        no_panic(&format!("blip {typ:#06x} with instance 0"), || open(g));
+        let inst: u16 = match typ { 0xF01A => 0x3D4, 0xF01B => 0x216, 0xF01C => 0x542, 0xF01D | 0xF02A => 0x46A, 0xF01E => 0x6E0, 0xF01F => 0x7A8, _ => 0x6E4 };
+        let g = art(inst << 4, typ, &[0u8; 5]);
+        no_panic(&format!("blip {typ:#06x} of 5 bytes"), || open(g));
+    }
+    finish();
+}
+
 #[test]
 fn kf_c06_mutation_recipes() {
     let list = include_str!("c06_mutations.tsv");
